@@ -337,6 +337,43 @@ PROPS = {
         assumptions=["documents contain no tab and no carriage return (the property's proviso; the theorems' tabFree hypothesis)",
                      "the block driver hands each container's remaining line view to its children unchanged (searched by component quote, not proved)"],
     ),
+    "C11": dict(
+        level="other",
+        module="GM.Props.C11",
+        claim="Partial, by design. Kernel-checked, for the machinery every inline extension plugs into - a Lean model of the per-block inline "
+              "driver (*parser).parseBlock (trigger test and table index, flushing with MergeOrAppendTextSegment, consultation in priority order "
+              "with SetPosition restore after nil, goto retry, end-of-line text with TrimRightSpace and repair 8b9b792, soft/hard break flags) "
+              "over ABSTRACT inline parsers (trigger bytes + a script: position -> decline after moving the reader | accept n bytes): "
+              "silent_parser_irrelevant - for every well-formed block, every parser list obeying the forward-progress contract and every place "
+              "in the priority order, adding a parser that declines everywhere leaves the resolved text (bytes, break flags, parser-made nodes) "
+              "unchanged, and the loop terminates; not_consulted - every Parse call is for a byte that passed the trigger test and goes to a "
+              "parser registered for that byte's table index; first_accept_wins on a shared trigger. Searched, not proved: what each built-in "
+              "extension's own parser bodies, paragraph/AST transformers and renderer options do on documents free of its trigger characters "
+              "(component conservative: with/without each extension, alone and combined, HTML compared).",
+        note="Trusted: Lean kernel (+ propext, Classical.choice, Quot.sound); the correspondence harness; the abstraction of an inline parser as a "
+             "function of the reader position that neither reads nor mutates the parent's children (true of a parser that declines; the built-in "
+             "parsers that accept may splice nodes - link/emphasis - which is outside this model). Segment.Padding is not modelled: the harness "
+             "reports any compared block with padding as an unmet assumption. Table early exit (a paragraph without '-' is never transformed): "
+             "see parseDelimiter_needs_dash in the table package (GM.Proof.Table), cited, not re-proved here.",
+        technique="Lean 4 theorems (two-run simulation over the byte loop) over a hand-written model; differential correspondence through the public "
+                  "API with scripted probe inline parsers; metamorphic oracles on the real library",
+        components=["inlineloop", "conservative"],
+        tie=["inlineloop"],
+        explanation="Theorems in GM.Props.C11 over GM.Model.InlineLoop (helpers GM.Proof.InlineLoop: closed form of the end-of-line step, "
+                    "simulation scan_sim/pass_sim/loop_sim between a configuration and the same configuration plus a silent parser, termination "
+                    "measure). Component inlineloop builds goldmark parsers with ONLY scripted probe inline parsers (and, for explicit line "
+                    "segments, a probe block parser), parses every document over {a, space, backslash, *, LF, CR, TAB, e-acute} up to length 4 "
+                    "(6 thorough) x 9 probe sets plus random documents/scripts/segment lists, dumps each block's line segments, Text children "
+                    "(start, stop, soft, hard), markers and the Parse call log, and compares with the model. Independent oracles on the real code: "
+                    "with vs without an always-declining probe (space-triggered = Linkify's situation, or triggered by every byte; first or last "
+                    "in priority; moving the reader before nil) the concatenated text + break flags must be equal; every logged call must be at a "
+                    "trigger byte of the called probe and not at an escaped byte. Component conservative: each built-in extension on/off on "
+                    "documents free of its trigger set.",
+        assumptions=["block lines are well-formed: non-empty segments inside the source, increasing, every line but the last ends with its newline, padding 0 "
+                     "(what the built-in block parsers produce; checked on every compared block)",
+                     "an inline parser that returns a node has advanced the reader by >= 1 byte; a parser that returns nil may leave the reader anywhere",
+                     "the extensions' own code on trigger-free input is covered by search (conservative), not by proof"],
+    ),
 }
 
 # Properties not claimed yet, with the reason shown in MANIFEST.not_applicable.
